@@ -6,7 +6,7 @@ CONSTANTS
   Downs <- Downs2
   Drops = {TRUE, FALSE}
   Refuses <- Refuses2
-  Fallbacks = {TRUE, FALSE}
+  Fallbacks = {TRUE}
   SessReads = {TRUE}
   Cfgs <- CfgsAll
   Dev_S1_RefusedReconnectRaises = FALSE
